@@ -136,6 +136,16 @@ def run(ctx):
             mode = "--return-angles" if sd % 2 == 0 else "--output-json"
             cases.append({"fn": "cli", "arglist": [mode, "--seqargs=30,0.1", "hamsim"], "cmd": "hamsim", "mode": mode, "bracket": False,
                           "so": "Wx", "tol": 0.1, "exp_args": [30, 0.1], "npseed": sd, "timeout": 600})
+        for k, cmd in enumerate(UNKNOWN):
+            # an unknown command next to options that carry numbers (--phiset, --seqargs): still help text and no phases
+            mode = "--return-angles" if k % 2 == 0 else "--output-json"
+            cases.append({"fn": "cli", "arglist": [mode, "--phiset=" + fmt_list([0.1, 0.2, 0.3], k % 2 == 1, 0), "--seqargs=3,0.1", cmd], "cmd": cmd, "mode": mode,
+                          "bracket": k % 2 == 1, "so": "Wx", "tol": 0.1, "exp_args": [], "npseed": 1, "timeout": 120})
+        # --poly lists with zero padding at the high end and a zero constant term (the list must reach the phase finder as given)
+        for poly in ([0, 0.6, 0, -0.3, 0, 0], [0, 0.5, 0, 0], [0, 0, 0.7, 0, 0], [0.2, 0, 0.5, 0, 0]):
+            for bracket in (False, True):
+                cases.append({"fn": "cli", "arglist": ["--return-angles", "--poly=" + fmt_list(poly, bracket, 0), "poly2angles"], "cmd": "poly2angles",
+                              "mode": "--return-angles", "bracket": bracket, "so": "Wx", "tol": 0.1, "exp_args": poly, "npseed": 5, "timeout": 300})
         for cmd in UNKNOWN:
             cases.append({"fn": "cli", "arglist": ["--return-angles", "--poly=-1,0,2", cmd], "cmd": cmd, "mode": "--return-angles", "bracket": False,
                           "so": "Wx", "tol": 0.1, "exp_args": [], "npseed": 1, "timeout": 120})
@@ -168,6 +178,12 @@ def run(ctx):
                 ctx.fail("cli", c, "unknown command %r: expected help text and no phases (returned %s, %d library calls, help printed: %s)" %
                          (c["cmd"], ro["ret"] is not None, len(calls), ro["unknown"] and ro["usage"]))
             continue
+        if c["cmd"] == "poly2angles" and q:
+            # what reached the phase finder must be the --poly list, whether or not the library could serve it
+            if [fr(v) for v in q[0]["poly"]] != [fr(hexf(float(v))) for v in c["exp_args"]]:
+                ctx.fail("cli", c, "the polynomial handed to the phase finder (%d coefficients) differs from the --poly coefficients (%d)" %
+                         (len(q[0]["poly"]), len(c["exp_args"])))
+                continue
         lib_raised = [x["raised"] for x in q if x.get("raised")]
         if lib_raised and ro["exc"] is None:
             if ro["ret"] is not None or ro["json"] is not None:
